@@ -15,13 +15,14 @@ var ghostKeys = map[string]string{
 	"$sctok":    "(Array Int Bytes)", // bufio.Scanner handle -> current token
 	"$out":      "(Sq Bytes)",        // lines printed to stdout (fmt.Print*, color.*)
 	"$calls":    "(Array Int Int)",   // function value -> number of calls made through it
+	"$zw":       "(Array Int Bytes)", // zlib.Writer handle -> bytes written so far
 	"$iofail":   "Bool",              // some file-system modification (create, write, mkdir, remove, rename) has failed
 }
 
 // hidden state of library objects, console output and call counters: never part of a frame obligation; a caller
 // loses what it knew about them whenever the callee may (syntactically, transitively) touch them
 func isHiddenGhost(k string) bool {
-	return k == "$out" || k == "$rdpos" || k == "$hashdata" || k == "$screst" || k == "$sctok" || k == "$calls" || k == "$iofail"
+	return k == "$out" || k == "$rdpos" || k == "$hashdata" || k == "$screst" || k == "$sctok" || k == "$calls" || k == "$iofail" || k == "$zw"
 }
 
 func isGhostKey(k string) bool { _, ok := ghostKeys[k]; return ok }
@@ -58,26 +59,28 @@ func (g *FuncGen) ghostSet(st *State, key, term string) {
 
 // effects of library functions on ghost state (for loop and call frames)
 var libEffects = map[string][]string{
-	"os.Create":                    {"$fs", "$iofail"},
-	"os.OpenFile":                  {"$fs", "$iofail"},
-	"os.Mkdir":                     {"$fs", "$iofail"},
-	"os.MkdirAll":                  {"$fs", "$iofail"},
-	"os.Remove":                    {"$fs", "$iofail"},
-	"os.Rename":                    {"$fs", "$iofail"},
-	"os.WriteFile":                 {"$fs", "$iofail"},
-	"(*os.File).Write":             {"$fs", "$iofail"},
-	"(*os.File).WriteString":       {"$fs", "$iofail"},
-	"encoding/binary.Write":        {"$fs", "$iofail"},
-	"io.WriteString":               {"$hashdata"},
-	"(io.Reader).Read":             {"$rdpos", "$hashdata"},
-	"(*bytes.Reader).Read":         {"$rdpos", "$hashdata"},
-	"io.ReadAll":                   {"$rdpos", "$hashdata"},
-	"encoding/binary.Read":         {"$rdpos", "$hashdata"},
-	"(*bufio.Scanner).Scan":        {"$screst", "$sctok"},
-	"fmt.Println":                  {"$out"},
-	"fmt.Printf":                   {"$out"},
-	"fmt.Print":                    {"$out"},
-	"github.com/fatih/color.Green": {"$out"},
+	"os.Create":                     {"$fs", "$iofail"},
+	"os.OpenFile":                   {"$fs", "$iofail"},
+	"os.Mkdir":                      {"$fs", "$iofail"},
+	"os.MkdirAll":                   {"$fs", "$iofail"},
+	"os.Remove":                     {"$fs", "$iofail"},
+	"os.Rename":                     {"$fs", "$iofail"},
+	"os.WriteFile":                  {"$fs", "$iofail"},
+	"(*os.File).Write":              {"$fs", "$iofail"},
+	"(*os.File).WriteString":        {"$fs", "$iofail"},
+	"encoding/binary.Write":         {"$fs", "$iofail"},
+	"io.WriteString":                {"$hashdata"},
+	"(io.Reader).Read":              {"$rdpos", "$hashdata"},
+	"(*bytes.Reader).Read":          {"$rdpos", "$hashdata"},
+	"io.ReadAll":                    {"$rdpos", "$hashdata"},
+	"encoding/binary.Read":          {"$rdpos", "$hashdata"},
+	"(*bufio.Scanner).Scan":         {"$screst", "$sctok"},
+	"compress/zlib.NewWriter":       {"$zw"},
+	"(*compress/zlib.Writer).Write": {"$zw"},
+	"fmt.Println":                   {"$out"},
+	"fmt.Printf":                    {"$out"},
+	"fmt.Print":                     {"$out"},
+	"github.com/fatih/color.Green":  {"$out"},
 }
 
 func libEffectKeys(fullName string) []string {
